@@ -218,6 +218,8 @@ func main() {
 		replay(a, res)
 	case "seq3":
 		seq3(a, res)
+	case "api":
+		api(a, res)
 	case "record":
 		record(a, res)
 	case "auth":
